@@ -132,7 +132,9 @@ def replay_arc_lemma(r):
 def replay_chunk_lemma(r):
     inp = r["inputs"]
     R, C, cs = int(inp["row_size"]), int(inp["col_size"]), int(inp["chunk_size"])
-    R, C, cs = min(R, 40), min(C, 40), min(cs, 50)
+    R, C, cs = min(R, 3000), min(C, 3000), min(cs, 4000)
+    if R * C > 2_000_000:
+        C = max(1, 2_000_000 // R)
     rng = np.random.RandomState(0)
     A, B = rng.normal(size=(R, 2)), rng.normal(size=(C, 2))
     try:
